@@ -280,36 +280,45 @@ def buildUn (op : OpDef) (f : String) (a : Tm) : R Tm :=
 
 /-! ## `label_tokens` (parser.py:1143-1196) -/
 
+/-- first if-chain (:1148-1155): `n` is the next (raw) token -/
+def labelA (t : Item) (n : Option Item) : Item :=
+  match n with
+  | none => ((t.clearUnop).clearBinop).setFunctor false                       -- i == l
+  | some nx =>
+    if t.functor && nx.isCommaList then t.setAtom false
+    else if t.unop.isSome && nx.priority > t.priority then t.clearUnop
+    else t
+
+/-- second if-chain (:1157-1182): `p` is the previous (labelled) token; may modify it -/
+def labelB (p : Option Item) (t : Item) : R (Option Item × Item) :=
+  match p with
+  | none => pure (none, (t.clearBinop).setArglist false)                      -- i == 0
+  | some pv =>
+    if pv.aggregate then pure (some ((pv.setAtom false).setFunctor true), t)
+    else if pv.functor then pure (some pv, (t.setAtom false).setArglist t.isCommaList)
+    else if pv.arglist then pure (some pv, ((t.clearUnop).setAtom false).setFunctor false)
+    else if pv.atom then
+      if t.binop.isNone then throw (Err.parse "Expected binary operator")
+      else pure (some pv, (((t.clearUnop).setAtom false).setFunctor false).setArglist false)
+    else if pv.binop.isSome then pure (some pv, (t.clearBinop).setArglist false)
+    else pure (some pv, t.setArglist false)
+
+/-- :1184-1185 -/
+def labelC (t : Item) : Item := if t.unop.isSome && t.functor then t.clearUnop else t
+
+/-- :1187-1190 -/
+def labelD (t : Item) (n : Option Item) : R Item :=
+  if t.unop.isSome && t.atom then
+    match n with
+    | none => throw (Err.internal "IndexError:label_tokens")                   -- tokens[i + 1]
+    | some nx => pure (if nx.binop.isNone then t.setAtom false else t)
+  else pure t
+
 /-- One iteration of the loop for token `t` with previous (already labelled) token `p` and next (raw) token `n`.
     Returns the possibly modified previous token and the labelled `t`. -/
 def labelStep (p : Option Item) (t : Item) (n : Option Item) : R (Option Item × Item) := do
-  -- first if-chain (:1148-1155)
-  let t := match n with
-    | none => ((t.clearUnop).clearBinop).setFunctor false                     -- i == l
-    | some nx =>
-      if t.functor && nx.isCommaList then t.setAtom false
-      else if t.unop.isSome && nx.priority > t.priority then t.clearUnop
-      else t
-  -- second if-chain (:1157-1182)
-  let (p, t) ← (match p with
-    | none => pure (none, (t.clearBinop).setArglist false)                    -- i == 0
-    | some pv =>
-      if pv.aggregate then pure (some ((pv.setAtom false).setFunctor true), t)
-      else if pv.functor then pure (some pv, (t.setAtom false).setArglist t.isCommaList)
-      else if pv.arglist then pure (some pv, ((t.clearUnop).setAtom false).setFunctor false)
-      else if pv.atom then
-        if t.binop.isNone then throw (Err.parse "Expected binary operator")
-        else pure (some pv, (((t.clearUnop).setAtom false).setFunctor false).setArglist false)
-      else if pv.binop.isSome then pure (some pv, (t.clearBinop).setArglist false)
-      else pure (some pv, t.setArglist false) : R (Option Item × Item))
-  -- :1184-1185
-  let t := if t.unop.isSome && t.functor then t.clearUnop else t
-  -- :1187-1190
-  let t ← (if t.unop.isSome && t.atom then
-      match n with
-      | none => throw (Err.internal "IndexError:label_tokens")                 -- tokens[i + 1]
-      | some nx => pure (if nx.binop.isNone then t.setAtom false else t)
-    else pure t : R Item)
+  let (p, t) ← labelB p (labelA t n)
+  let t ← labelD (labelC t) n
   -- :1192-1193
   if t.countOptions != 1 then throw (Err.parse "Ambiguous token role")
   pure (p, t)
